@@ -4,7 +4,7 @@ from verif.core import Infra
 META = dict(
     technique="TLA+ reference operator (request target -> C26 normalisation -> built-in rewriter -> NUL / '..' guards -> file path below Root) model-checked by TLC over all token strings <= N (the reference never serves a path that leaves Root); TLC-emitted vectors replayed into real FS handlers with every opened/created path recorded (B3)",
     design_ref="DESIGN.md §4 C23",
-    text="TLC enumerates every request target of <= N tokens over {/ . %2e %2f %5c \\ %00 a %25} and, for no rewriter, NewPathSlashesStripper(0..2), NewPathPrefixStripper(0..3) and NewVHostPathRewriter (hosts h, '..', 'a/b', '', 'h:80'), computes the rewritten path, the verdict class (rej400 for NUL, rej500 for a '..' segment after rewriting, open) and the path relative to Root; the invariant checks on every input that whatever the reference serves has no '..' segment or NUL (cannot leave Root) and that the normalised request path never has a '..' segment. Every vector runs through real FS handlers on the default filesystem (temporary tree with sentinel files outside Root under exactly the names a traversal over this alphabet reaches, and a precompressed <Root>.fasthttp.gz next to the root) and on an instrumented fs.FS (Root 'r', same sentinels outside), each with compression off and on (CompressRoot outside Root on the default filesystem); all paths fs.go opens, stats, lists, creates or removes are recorded (hooks at those sites / the instrumented FS). Violation: a recorded path lexically outside Root / CompressRoot, a body containing the sentinel, a verdict other than the reference's (400 / 500 without touching the file system), a served request that did not open the reference's file path, or a panic. A sample is also sent over the wire to live servers.",
+    text="TLC enumerates every request target of <= N tokens over {/ . %2e %2f %5c \\ %00 a %25} and, for no rewriter, NewPathSlashesStripper(0..2), NewPathPrefixStripper(0..3) and NewVHostPathRewriter (hosts h, '..', 'a/b', '', 'h:80'), computes the rewritten path, the verdict class (rej400 for NUL, rej500 for a '..' segment after rewriting, open) and the path relative to Root; the invariant checks on every input that whatever the reference serves has no '..' segment or NUL (cannot leave Root) and that the normalised request path never has a '..' segment. Every vector runs through real FS handlers on the default filesystem (temporary tree with sentinel files outside Root under exactly the names a traversal over this alphabet reaches, and a precompressed <Root>.fasthttp.gz next to the root) and on an instrumented fs.FS (Root 'r', same sentinels outside), each with compression off and on (on the default filesystem both with a CompressRoot outside Root and with CompressRoot unset, where the copies belong inside Root); the process runs in an empty temporary working directory; all paths fs.go opens, stats, lists, creates or removes are recorded (hooks at those sites / the instrumented FS). Violation: a recorded path lexically outside Root / CompressRoot, any file created, removed or resized outside Root / CompressRoot (snapshot of Root's parent, the sentinels and the working directory after every vector; the working directory is checked after every call), a body containing the sentinel, a verdict other than the reference's (400 / 500 without touching the file system), a served request that did not open the reference's file path, or a panic. A sample is also sent over the wire to live servers.",
     note="Trusted: the TLA+ transcription of the normalisation (shared with C26, meta-checked by TLC) and of the rewriters, hook placement at every open/create site of fs.go, TLC, the Go toolchain. Lexical confinement only (symlinks are out of scope of the statement). With an empty or unparsable Host header the request path is decided by URI parsing (C27); such vhost cases are checked for confinement, sentinel and panics only when the target contains '//'. Targets outside the token alphabet / length bound are not enumerated.",
 )
 
@@ -44,7 +44,7 @@ def run(ctx):
     ctx.traces_validated = ctx.evaluations
     ctx.exhaustive = True
     ctx.rule = ("one evaluation = one (request target, rewriter/host case, filesystem, compression) handler call; all %d token "
-                "strings of length 0..%d over 9 tokens x 14 rewriter/host cases x {default filesystem, fs.FS} x {compress off, on}; "
+                "strings of length 0..%d over 9 tokens x 14 rewriter/host cases x {default filesystem: compress off / on with CompressRoot / on without, fs.FS: compress off / on}; "
                 "non-trivial = a rewriter is configured or the target contains '.', '%%' or a backslash" % (nvec, n))
     ctx.assumptions = ["token alphabet {/ . %%2e %%2f %%5c \\ %%00 a %%25}, length bound %d tokens" % n,
                        "handlers use SkipCache so that every call reaches the file system",
